@@ -11,7 +11,9 @@ VARIANTS = [
     ("copy-default-unparse-inplace", "C07", "bibtexparser/entrypoint.py", "unparse_stack = default_unparse_stack(allow_inplace_modification=False)", "unparse_stack = default_unparse_stack(allow_inplace_modification=True)", "fire"),
     ("copy-unparse-stack-ignores-flag", "C07", "bibtexparser/middlewares/parsestack.py", "        AddEnclosingMiddleware(\n            allow_inplace_modification=allow_inplace_modification,", "        AddEnclosingMiddleware(\n            allow_inplace_modification=True,", "fire"),
     ("copy-normalize-mutates-library", "C07", "bibtexparser/middlewares/fieldkeys.py", "        entry.fields = new_fields\n", "        entry.fields = new_fields\n        library.blocks.reverse()\n", "fire"),
-    ("copy-sortfields-returns-shared-metadata", "C07", "bibtexparser/middlewares/sorting_entry_fields.py", "        entry.parser_metadata[self.metadata_key()] = self._order\n", "        entry.parser_metadata[self.metadata_key()] = self._order\n        library.blocks[0].parser_metadata[self.metadata_key()] = self._order\n", "fire"),
+    ("copy-sortfields-returns-shared-metadata", "C07", "bibtexparser/middlewares/sorting_entry_fields.py", "        entry.parser_metadata[self.metadata_key()] = list(self._order)\n", "        entry.parser_metadata[self.metadata_key()] = list(self._order)\n        library.blocks[0].parser_metadata[self.metadata_key()] = self._order\n", "fire"),
+    ("revert-D19-sortfields-shares-order-list", "C07", "bibtexparser/middlewares/sorting_entry_fields.py", "        entry.parser_metadata[self.metadata_key()] = list(self._order)\n", "        entry.parser_metadata[self.metadata_key()] = self._order\n", "fire"),
+    ("benign-sortfields-order-copy-slice", "C07", "bibtexparser/middlewares/sorting_entry_fields.py", "        entry.parser_metadata[self.metadata_key()] = list(self._order)\n", "        entry.parser_metadata[self.metadata_key()] = self._order[:] if isinstance(self._order, list) else list(self._order)\n", "silent"),
     ("benign-copy-explicit-if", "C07", M, "        block = block if self.allow_inplace_modification else deepcopy(block)\n", "        if not self.allow_inplace_modification:\n            block = deepcopy(block)\n", "silent"),
     ("benign-copy-sort-copy-library", "C07", "bibtexparser/middlewares/sorting_blocks.py", "blocks = deepcopy(library.blocks)", "blocks = deepcopy(library).blocks", "silent"),
 ]
